@@ -26,14 +26,14 @@ PROPS = {
     ),
     "C21": dict(
         engine="lowering", check_targets=["Check/CheckLow.vo"], proof_targets=["Props/C21.vo"],
-        theorems=[("C21", "C21_block_alternate_lowering_exact"), ("C21", "C21_checker_sound"), ("C21", "C21_accepted_on_constructs_only")],
+        theorems=[("C21", "C21_block_alternate_replaces_exactly_the_construct"), ("C21", "C21_block_alternate_lowering_exact"), ("C21", "C21_depth_counter_is_region_replacement"), ("C21", "C21_checker_sound"), ("C21", "C21_accepted_on_constructs_only")],
         quick=dict(n=1600), thorough=dict(n=40000), per_shard=400,
         rule="random well-bracketed bodies with 1-3 block-alternate plans (replacement or removal, on block/loop/if/else, nested and on both an if and its else) combined with "
              "before/after/alternate injections outside the replaced regions, through all four API paths; non-trivial = plan non-empty",
         level_text="Proof (all bodies, all plans over before/after/alternate/block-alt, no size bound): the model of the injection API + resolve_special_instrumentation + emission equals dspec, "
-                   "a one-pass depth-counter specification of 'replace the construct from its opener through its matching end (else: the else arm, end kept)'. The region-based formulation spec21 is "
-                   "compared with dspec and with the real output on every sampled case (their equivalence for all well-bracketed bodies is the remaining obligation); special probes inside a replaced "
-                   "region must vanish with it (checked per case).",
+                   "a one-pass depth-counter specification, and dspec equals the region-based reading spec21 of the property ('replace the construct from its opener through its matching end; for else the "
+                   "else arm, end kept; everything else as in C15') for every consistently nested body and every plan without plain probes on removed positions (eqdom, evaluated to hold on every in-domain "
+                   "sample). Hence `model = spec21`: full. Special probes inside a replaced region must vanish with it (checked per case, outside the theorem).",
         level_note="Trusted: Coq kernel + vm_compute; the harness. Modelled, not verified: resolve_special_instrumentation (block_alt / delete_block / retain_end handling), emission loop.",
         technique="in-Coq differential correspondence + executable specification; Coq lemmas on the API model",
         design_ref="5/C21", trusted_base=LOW_TB, modelled="resolve_special_instrumentation, plan_resolution_block_alt, emission loop",
